@@ -682,6 +682,9 @@ pub fn run(tier: Tier) -> Outcome {
     staked_frozen_matrix(&e, &mut a);
     let (fs, ft) = freeze_bfs(&e, if tier == Tier::Quick { 2 } else { 3 }, &mut a);
     let (ds, dt) = deleverage(&e, tier, &mut a);
+    // the bracket grid of C10 driven by the risk admin: partial amounts and close-outs on healthy and unhealthy accounts
+    let dg = super::c10::deleverage_grid(tier, &mut a.classes, &mut a.found);
+    a.cells += dg;
     let mut o = Outcome { level: "exploration".into(), ..Default::default() };
     o.found = a.found;
     let wrote: u64 = a.classes.iter().filter(|(k, _)| k.ends_with(":wrote")).map(|(_, v)| *v).sum();
